@@ -309,6 +309,68 @@ func checkC07(c *Ctx) {
 		})
 	}
 	c.Check(okSrc, "R7", "install-clone:"+FuncName(drv), p.InstrPos(install.Instr), "installed table is the open step's result", "the table installed before starting the hand is not the open step's result")
+	// … and on every path reaching the installation, the open call that produced the
+	// installed table returned a nil error (path-sensitive: retries re-assign both)
+	if install != nil {
+		okNil, dNil, nPaths := true, "", 0
+		wk := &Walker{P: p, Fn: drv,
+			IsEvent: func(in ssa.Instruction) bool { return in == install.Instr },
+			OnEvent: func(in ssa.Instruction, st *WState) {
+				nPaths++
+				v := st.Resolve(in.(*ssa.Store).Val)
+				ex, isEx := v.(*ssa.Extract)
+				if !isEx {
+					okNil, dNil = false, "the installed table is "+p.Sym(v).String()
+					return
+				}
+				var errV ssa.Value
+				if refs := ex.Tuple.Referrers(); refs != nil {
+					for _, r := range *refs {
+						if e2, isE := r.(*ssa.Extract); isE && isErrorType(e2.Type()) {
+							errV = e2
+						}
+					}
+				}
+				if errV == nil || st.NilFact(errV) != +1 {
+					okNil, dNil = false, "the result of an open step whose error was not checked to be nil can be installed and started (at "+p.InstrPos(ex)+")"
+				}
+			}}
+		wk.Run()
+		c.Check(okNil && !wk.Aborted && nPaths >= 1, "R7", "install-only-successful-open", p.InstrPos(install.Instr), fmt.Sprintf("on %d path state(s) the installed table comes from an open step that returned nil", nPaths), "a failed open step's table (the old table) can be installed and a hand started on it: "+dNil)
+	}
+	// … and conversely a successful open step (which has already moved the button in the
+	// seat manager) is never abandoned: every exit after it passes the installation
+	if install != nil {
+		okUse, dUse, nExits := true, "", 0
+		wk := &Walker{P: p, Fn: drv,
+			IsEvent: func(in ssa.Instruction) bool {
+				if in == install.Instr {
+					return true
+				}
+				ci, isC := in.(*ssa.Call)
+				return isC && ci.Common().StaticCallee() == lc.openFn
+			},
+			OnExit: func(in ssa.Instruction, st *WState) {
+				nExits++
+				var last *ssa.Call
+				installed := false
+				for _, e := range st.Events {
+					if ci, isC := e.(*ssa.Call); isC {
+						last, installed = ci, false
+					} else if e == install.Instr {
+						installed = true
+					}
+				}
+				if last == nil || installed {
+					return
+				}
+				if ev := callErrValue(last); ev != nil && st.NilFact(ev) == +1 {
+					okUse, dUse = false, "the exit at "+p.InstrPos(in)+" follows a successful open step ("+p.InstrPos(last)+") without installing and starting the hand"
+				}
+			}}
+		wk.Run()
+		c.Check(okUse && !wk.Aborted && nExits >= 1, "R7", "successful-open-is-installed", p.Pos(drv.Pos()), fmt.Sprintf("%d exit path state(s): none abandons a successful open step", nExits), "the positions were rotated for a hand that is then dropped: "+dUse)
+	}
 	var startSite ssa.Instruction
 	nStart := 0
 	for _, f := range p.Funcs {
